@@ -635,8 +635,10 @@ func generateMore(suite string, seed uint64, i int, r *rng, id string, g gp) *Ca
 		return &Case{ID: id, Op: "multi", Arg: arg, Runs: runs}
 	case "scale": // C17
 		edges, names := genGraph(r, g)
-		cfg := genCfg(r, cp{p1: []int{0, 1}, p2: []int{0, 1}, p4: []int{0, 1, 2, 4}, bk: allBK, p5: []int{0, 1, 2}, virt: 1}, names)
-		k := r.rangeIn(-3, 6)
+		// half of the cases use Brandes-Koepf, and half of those its default (balanced + verified) mode: the other positioners are
+		// covered end to end by C17_layoutModelS_scale, the four candidate layouts and their selection are not
+		cfg := genCfg(r, cp{p1: []int{0, 1}, p2: []int{0, 1}, p4: []int{4, 4, 4, 0, 1, 2}, bk: []int{-1, -1, -1, -1, 0, 1, 2, 3}, p5: []int{0, 1, 2}, virt: 1}, names)
+		k := r.rangeIn(-6, 6)
 		if k == 0 {
 			k = 1
 		}
